@@ -67,6 +67,7 @@ def run(ctx, rep, tier):
     rep.rule("D2", "unordered containers: order-insensitive use only (or copied and sorted)", 8)
     rep.rule("A1", "std::async launches: const callee on immutable shared data, copied arguments, joined before the parent touches shared members", 2)
     rep.rule("D3", "algorithms never read placement coordinates back from the Circuit after construction", 2)
+    rep.rule("D5", "members of the global placer are assigned on every path before a step reads them (no indeterminate value reaches a result)", 2)
     rep.rule("D4", "no code runs only when the observing callback is absent (results cannot depend on its presence)", 3)
     rep.rule("CTRL", "positive controls of the zero-instance rules (selftest/c08_controls.cpp)", 5)
 
@@ -78,6 +79,8 @@ def run(ctx, rep, tier):
     check_a1(ctx, prog, eff, rep, "A1")
     check_d3(ctx, rep)
     check_d4(ctx, rep)
+    from .c07 import check_di
+    check_di(ctx, prog, rep, "D5")
     rep.extra["static_storage_declarations_examined"] = n_static
     rep.extra["member_declarations_examined"] = n_mut
     if not any(i["rule"] == "Z1" for i in rep.instances):
@@ -746,11 +749,11 @@ def lambda_captures(lam):
 
 # ---- D3 --------------------------------------------------------------------
 
-def check_d3(ctx, rep):
+def check_d3(ctx, rep, rid="D3", specs=None):
     prog, eff = ctx.prog, ctx.eff
     trans = eff.transitive()
-    specs = [("GlobalPlacer::run", ["cellX_", "cellY_"]),
-             ("DetailedPlacer::run", ["cellX_", "cellY_", "cellOrientation_"])]
+    specs = specs or [("GlobalPlacer::run", ["cellX_", "cellY_"]),
+                      ("DetailedPlacer::run", ["cellX_", "cellY_", "cellOrientation_"])]
 
     # classes that make up the algorithms' state: the two placers and everything they hold by value
     state_classes = set()
@@ -807,12 +810,12 @@ def check_d3(ctx, rep):
                     bad.append((g, x, fl))
         if bad:
             g, x, fl = bad[0]
-            rep.violation("D3", x, g, "%s reaches a read of Circuit::%s" % (entry, fl),
+            rep.violation(rid, x, g, "%s reaches a read of Circuit::%s" % (entry, fl),
                           "placement coordinates exported for a callback can flow back into the algorithm via %s (%d read site(s))" % (
                               " -> ".join(call_chain(ctx, f, g)), len(bad)),
                           key="%s|reads back Circuit::%s in %s" % (entry, fl, g.short))
         else:
-            rep.holds("D3", f.decl, f, "no read of Circuit::{%s} reachable from %s outside pure exporters" % (",".join(flds), entry),
+            rep.holds(rid, f.decl, f, "no read of Circuit::{%s} reachable from %s outside pure exporters" % (",".join(flds), entry),
                       "%d functions reachable; pure exporters not entered: %s" % (len(reach), sorted(exporters)))
 
 
